@@ -397,6 +397,34 @@ func ruleC07Shapes(p *Program, r *Run) {
 	} else {
 		r.Check(sc.kinds["TokenPlus"] && sc.kinds["TokenMinus"] && len(sc.kinds) == 2, "C07/sign", "parser.(*parser).unaryExpr sign tokens", p.Pos(un.Pos()), "exactly + and - are prefix signs (token kinds possible where the UnaryExpr is built)", fmt.Sprintf("a UnaryExpr is built for token kinds %v, documented: + and -", keysOf(sc.kinds)))
 		r.Check(sc.operand == primary && !sc.operandBad, "C07/sign", "parser.(*parser).unaryExpr sign operand", p.Pos(un.Pos()), "operand of a sign is a primary expression (binds tighter than any binary operator, looser than indexing and calls)", fmt.Sprintf("the operand of a sign is parsed by %v, not by primaryExpr: `-a * b` or `- -a` would group differently from the documented grammar", sc.operand))
+		// a sign changes nothing about what may follow it: the operand of a sign and an operand without a sign are
+		// parsed by the same production (whatever it is called today)
+		{
+			callees := map[*types.Func]bool{}
+			var names []string
+			ast.Inspect(un.Body, func(n ast.Node) bool {
+				call, ok := n.(*ast.CallExpr)
+				if !ok {
+					return true
+				}
+				f := Callee(info, call)
+				if f == nil || cursorOf(f) != "parser" || f == FuncObj(pkg, un) {
+					return true
+				}
+				sig := f.Type().(*types.Signature)
+				if sig.Results().Len() != 2 || !types.Identical(sig.Results().At(0).Type(), p.Named(pkg, "Expr")) {
+					return true
+				}
+				if !callees[f] {
+					callees[f] = true
+					names = append(names, f.Name())
+				}
+				return true
+			})
+			sort.Strings(names)
+			r.Check(len(callees) <= 1, "C07/sign", "parser.(*parser).unaryExpr one operand production", p.Pos(un.Pos()), "signed and unsigned operands are parsed by the same production",
+				fmt.Sprintf("unaryExpr parses its operand with different productions depending on the sign (%s): what may follow an operand - indexing, a call - would be accepted without a sign and rejected (or grouped differently) with one", strings.Join(names, ", ")))
+		}
 		r.Check(sc.keepsOp, "C07/sign", "parser.(*parser).unaryExpr keeps the sign", p.Pos(un.Pos()), "UnaryExpr.Op is the kind of the token read as the sign", "the UnaryExpr does not record the sign token's kind")
 	}
 	_ = info
